@@ -110,7 +110,7 @@ def accept_harness(T, lbw, lbh, cbw, cbh, name):
            unw=max(ln, cn) * (2 if T == 'u16' else 1) + 2)
 
 
-def decode_harness(T, ssx, ssy, w, h, name, bd, symbolic_content, pointwise, ue=0, ve=1):
+def decode_harness(T, ssx, ssy, w, h, name, bd, symbolic_content, pointwise, ue=0, ve=1, keepcmp=True, full=None):
     """Accepted frame -> ycbcr_to_ypbpr with every get_unchecked inside its buffer (C07);
     with pointwise=True also: output pixel (x,y) == kernels(Y(x,y), U/V(x>>ssx, y>>ssy)) bit for bit,
     source unmodified (C11)."""
@@ -137,8 +137,8 @@ def decode_harness(T, ssx, ssy, w, h, name, bd, symbolic_content, pointwise, ue=
                 assert!(g[0].to_bits() == e[0].to_bits() && g[1].to_bits() == e[1].to_bits() && g[2].to_bits() == e[2].to_bits(),
                     "decoded pixel (x,y) is the 1x1 conversion of Y(x,y), U/V(x>>ssx,y>>ssy)");
             } }
-            assert!(y.data()[0].data == keep.planes[0].data && y.data()[1].data == keep.planes[1].data && y.data()[2].data == keep.planes[2].data,
-                "borrowed source unmodified");''' % dict(w=w, h=h, ssx=ssx, ssy=ssy)
+%(cmp)s''' % dict(w=w, h=h, ssx=ssx, ssy=ssy, cmp=("""            assert!(y.data()[0].data == keep.planes[0].data && y.data()[1].data == keep.planes[1].data && y.data()[2].data == keep.planes[2].data,
+                "borrowed source unmodified");""" if keepcmp else ""))
     return r'''
     #[kani::proof]
     #[kani::unwind(%(unw)d)]
@@ -148,7 +148,7 @@ def decode_harness(T, ssx, ssy, w, h, name, bd, symbolic_content, pointwise, ue=
             plane_win::<%(T)s, %(ln)d>(&yb, %(lbw)d, %(w)d, %(h)d, 0, 0),
             plane_win::<%(T)s, %(un)d>(&ub, %(ubw)d, any_dim(%(ubw)d), any_dim(%(cbh)d), %(ssx)d, %(ssy)d),
             plane_win::<%(T)s, %(vn)d>(&vb, %(vbw)d, any_dim(%(vbw)d), any_dim(%(cbh)d), %(ssx)d, %(ssy)d)] };
-        let c = cfg(%(bd)d, %(ssx)d, %(ssy)d, kani::any());
+        let c = cfg(%(bd)d, %(ssx)d, %(ssy)d, %(full)s);
         let keep = f.clone();
         let r = Yuv::new(f, c);
         kani::cover!(r.is_ok(), "accepted");
@@ -158,7 +158,7 @@ def decode_harness(T, ssx, ssy, w, h, name, bd, symbolic_content, pointwise, ue=
             kani::cover!(o.len() == %(w)d * %(h)d, "decoded");%(pw)s
         }
     }
-''' % dict(name=name, T=T, bufs=bufs, ln=ln, cn=cn, un=un, vn=vn, ubw=ubw, vbw=vbw, lbw=lbw, cbw=cbw, cbh=cbh, w=w, h=h, ssx=ssx, ssy=ssy, bd=bd,
+''' % dict(name=name, T=T, bufs=bufs, ln=ln, cn=cn, un=un, vn=vn, ubw=ubw, vbw=vbw, full=('kani::any()' if full is None else ('true' if full else 'false')), lbw=lbw, cbw=cbw, cbh=cbh, w=w, h=h, ssx=ssx, ssy=ssy, bd=bd,
            pw=pw, unw=max(max(ln, cn) * (2 if (T == 'u16' and pointwise) else 1), w * h) + 2)
 
 
